@@ -17,7 +17,7 @@ import datetime
 
 from hypothesis import strategies as st
 
-from pv.core import Sub, EnumSub, Violation, HarnessError, call, check
+from pv.core import Sub, EnumSub, Violation, HarnessError, call
 
 ASSUMPTIONS = [
     'starts are naive datetime.datetime objects with 1900-01-01 <= t < 2300-01-01 (one 400-year cycle, 146097 days); other spellings of t (date, str, int, Timestamp) are the subject of C04',
@@ -218,12 +218,14 @@ def run_bday(spec):
     r = _bump(api, t, s)
     _expect(api, t, [s], r, exp, 'the %s weekday %s, same time of day%s'
             % (abs(n), 'after' if n >= 0 else 'before', '; weekend start rolls forward to Monday first' if t.weekday() >= 5 else ''))
-    check(r.weekday() < 5, '%s(%r, %r) = %r is not a weekday', api, t, s, r)
+    if r.weekday() >= 5:
+        raise Violation('%s(%r, %r) = %r is not a weekday' % (api, t, s, r))
     # monotone in t (day granularity, same time of day)
     t2 = t + spec['k'] * DAY
     r2 = _bump(api, t2, s)
     _expect(api, t2, [s], r2, o_bday(t2, n), 'business-day walk')
-    check(r <= r2, 'not monotone in t: %r <= %r but bumped by %r they give %r > %r', t, t2, s, r, r2)
+    if not r <= r2:
+        raise Violation('not monotone in t: %r <= %r but bumped by %r they give %r > %r' % (t, t2, s, r, r2))
     cls = ['n>0' if n > 0 else 'n<0' if n < 0 else 'n=0', 'api=' + api]
     weekend = t.weekday() >= 5
     if weekend:
@@ -235,14 +237,18 @@ def run_bday(spec):
         direct = _bump(api, t, sab)
         _expect(api, t, [sab], direct, o_bday(t, a + b), 'business-day walk')
         two = _bump(api, _bump(api, t, sa), sb)
-        check(two == direct, 'from weekday %r: %r then %r gives %r but %r gives %r', t, sa, sb, two, sab, direct)
+        if two != direct:
+            raise Violation('from weekday %r: %r then %r gives %r but %r gives %r' % (t, sa, sb, two, sab, direct))
         multi = _bump(api, t, sa, sb)
-        check(multi == direct, 'from weekday %r: bumps (%r, %r) give %r but %r gives %r', t, sa, sb, multi, sab, direct)
+        if multi != direct:
+            raise Violation('from weekday %r: %s(t, %r, %r) gives %r but %r gives %r' % (t, api, sa, sb, multi, sab, direct))
         comp = _bump(api, t, sa + sb)
-        check(comp == direct, 'from weekday %r: compound %r gives %r but %r gives %r', t, sa + sb, comp, sab, direct)
+        if comp != direct:
+            raise Violation('from weekday %r: compound %r gives %r but %r gives %r' % (t, sa + sb, comp, sab, direct))
         # +n then -n
         back = _bump(api, r, fmt(-n, 'b', form & 2))
-        check(back == t, 'from weekday %r: %r then %r returns to %r', t, s, fmt(-n, 'b', form & 2), back)
+        if back != t:
+            raise Violation('from weekday %r: %r then %r returns to %r' % (t, s, fmt(-n, 'b', form & 2), back))
         if b:
             cls.append('composed')
     crosses = (r.toordinal() - t.toordinal()) != n
@@ -410,7 +416,8 @@ def run_fixed(spec):
     r = _bump(api, t, b)
     _expect(api, t, [b], r, exp, 'adds exactly %r' % delta)
     back = _bump(api, r, inv)
-    check(_is_dt(back) and back == t, '%s: %r bumped by %r then by %r returns to %r', api, t, b, inv, back)
+    if not (_is_dt(back) and back == t):
+        raise Violation('%s: %r bumped by %r then by %r returns to %r' % (api, t, b, inv, back))
     kind = spec['bump'][0] if spec['bump'][0] != 'p' else 'unit=' + spec['bump'][2]
     cls = [kind, 'api=' + api]
     zero = delta == datetime.timedelta(0)
@@ -453,7 +460,8 @@ def run_month(spec):
     if t.day <= 28:
         si = fmt(-n, unit, form & 2)
         back = _bump(api, r, si)
-        check(_is_dt(back) and back == t, '%s: %r (day <= 28) bumped by %r then by %r returns to %r', api, t, s, si, back)
+        if not (_is_dt(back) and back == t):
+            raise Violation('%s: %r (day <= 28) bumped by %r then by %r returns to %r' % (api, t, s, si, back))
         cls.append('day<=28')
     else:
         cls.append('day>=29')
@@ -644,8 +652,8 @@ def run_compound(spec):
 
 # ============================================================================= 9. compound tenors: all unit pairs / triples on a grid
 
-N2 = [-60, -21, -12, -5, -3, -1, 0, 1, 2, 4, 5, 7, 12, 29, 60]
-N3 = [-13, -1, 0, 2, 5, 31]
+N2 = list(range(-NMAX, NMAX + 1))                 # two-part tenors: every n for both parts
+N3 = [-60, -13, -5, -1, 0, 1, 4, 12, 31]          # three-part tenors: 9 values per part
 H_DAYS = [-48, -24, 0, 24, 48]
 
 
@@ -692,7 +700,7 @@ def run_compound_grid(spec):
 
 def _compound_grid_specs():
     import itertools
-    for k, nstarts in ((2, 16), (3, 6)):
+    for k, nstarts in ((2, 4), (3, 8)):
         for units in itertools.product(ALL_UNITS, repeat=k):
             has_month = bool(set(units) & set(MONTHS))
             for si in range(nstarts):
@@ -703,7 +711,7 @@ def _compound_grid_specs():
 
 
 def enum_compound_grid(tier):
-    total = 81 * 16 + 729 * 6
+    total = 81 * 4 + 729 * 8
 
     def chunker(i, nchunks):
         for j, spec in enumerate(_compound_grid_specs()):
@@ -756,7 +764,8 @@ SUBS = [
         rule='two- and three-part tenors over all nine unit letters, n in [-60,60] each, optional + / upper case per part, as one string or as separate bumps, '
              'through dt_bump and dt; oracle: left fold of the single-part oracles. non-trivial = parts of both signs',
         floor=0.25, class_floors={'has_month': 0.3, 'has_b': 0.15, 'k=3': 0.3, 'month_overflow': 0.01, 'b_from_weekend': 0.03, 'later_part_negative': 0.3}),
-    EnumSub('compound_grid', enum_compound_grid, run_compound_grid, strategy=lambda tier: _compound_grid_quick(), quick=300, chunks=32,
-            rule='all 81 ordered unit pairs x 16 starts x 15^2 n values and all 729 ordered unit triples x 6 starts x 6^3 n values '
-                 '(one evaluation = one unit sequence and start, all n combinations; an h/n/s part in front of a month-based part is restricted to whole days)'),
+    EnumSub('compound_grid', enum_compound_grid, run_compound_grid, strategy=lambda tier: _compound_grid_quick(), quick=60, chunks=32,
+            rule='ALL two-part tenors (81 ordered unit pairs x 121^2 values of n) from 4 starts each, and all 729 ordered unit triples x 9^3 values of n from 8 starts each '
+                 '(one evaluation = one unit sequence and start with all its n combinations; an h/n/s part in front of a month-based part is restricted to whole days: '
+                 'h in {0, +-24, +-48}, n/s = 0); the spelling (+ sign / case) rotates with the combination; oracle: left fold. non-trivial = some combination mixes signs'),
 ]
